@@ -18,6 +18,13 @@ action a to the identity track and pi(a) to track pi, each through `Simulator.ex
     and fermionic Gaussian simulators and for number-conserving pairs on the Fock simulators, on the total-photon-number sectors < E
     (mc.lockstep.Exactness, min over both orders) for the other pairs on the Fock simulators.
 
+(c) sampling path (fam "samp"; PassiveSimulator, PureFockSimulator, FockSimulator, fermionic GaussianSimulator / PureFockSimulator): DETERMINISTIC
+    circuits -- a number state with pairwise different occupations (fermionic: every arrangement of 1 / d-1 particles) followed by a permutation
+    interferometer on all modes / on an ordered mode subset, so that exactly one outcome is possible and is known from a two-line reference
+    (cross-validated against mc.refmodel.passiveref / fermiref at start-up) -- are executed with INTEGER shots for every relabelling pi and
+    ParticleNumberMeasurement on EVERY ordered mode tuple M (all modes in every order, every subset in every order): `Result.samples` must be
+    exactly shots copies of the tuple (n_m for m in M), whatever the seed stream (two seed_sequence values, fresh simulator per run).
+
 An instruction that one track refuses (PiquassoException) while another executes it is counted (asymmetric_refusal), a non-piquasso
 exception raised only by a relabelled / reordered program is reported (sub relabel_crash).
 """
@@ -29,6 +36,7 @@ LEVEL = "model_checking"
 TOL = 1e-9
 PNM_DROP = 2e-8  # shots=None drops outcomes with np.isclose(p, 0)
 MAX_RECORDED_PER_SIG = 2
+SAMP_KINDS = ("passive", "purefock", "fock", "fgauss", "ffock")
 SIM_CLASS = {"gaussian": "GaussianSimulator", "purefock": "PureFockSimulator", "fock": "FockSimulator", "passive": "PassiveSimulator",
              "fgauss": "fermionic.GaussianSimulator", "ffock": "fermionic.PureFockSimulator"}
 
@@ -63,6 +71,8 @@ def _boxes(tier):
         box(kind="purefock", d=4, cutoff=3, hbar=2.0, depth=1, meas=-1, comm=-1, roots=["n0110"], chunks=4)
         box(fam="fermi", d=2, depth=2, meas=1, comm=1)
         box(fam="fermi", d=3, depth=1, meas=1, comm=1)
+        for kind in SAMP_KINDS:  # one item per simulator: the numba / import warm-up of a simulator is paid once
+            box(fam="samp", kind=kind, d=3, ds=(2, 3), depth=1, meas=0, comm=-1)
     else:
         for h, c in ((0.5, 2), (2.0, 4)):
             box(kind="gaussian", d=1, cutoff=c, hbar=h, depth=3, meas=-1, comm=-1, level="thorough")
@@ -86,6 +96,9 @@ def _boxes(tier):
         box(fam="fermi", d=2, depth=3, meas=2, comm=2)
         box(fam="fermi", d=3, depth=2, meas=2, comm=1)
         box(fam="fermi", d=4, depth=1, meas=1, comm=0)
+        for kind in SAMP_KINDS:
+            box(fam="samp", kind=kind, d=3, ds=(2, 3), depth=1, meas=0, comm=-1)
+            box(fam="samp", kind=kind, d=4, ds=(4,), depth=1, meas=0, comm=-1)
     return B
 
 
@@ -100,6 +113,10 @@ def _items(tier, seed):
                     it = dict(bx)
                     it.update(root=rn, chunk=ch, bi=bi)
                     items.append(it)
+        elif bx["fam"] == "samp":
+            it = dict(bx)
+            it.update(root="samp", bi=bi, level="-", hbar=2.0, cutoff=None, tier=tier)
+            items.append(it)
         else:
             d = bx["d"]
             for occ in itertools.product((0, 1), repeat=d):
@@ -113,6 +130,8 @@ def _cost(it):
     from math import factorial
 
     d = it["d"]
+    if it.get("fam") == "samp":
+        return 400 * factorial(d) ** 2
     n = {1: 14, 2: 50, 3: 110, 4: 300}.get(d, 300)
     return factorial(d) * n ** it["depth"] / it.get("chunks", 1) + (n * n * n ** max(it["comm"], 0) if it["comm"] >= 0 else 0)
 
@@ -128,8 +147,10 @@ def run(ctx, builddir):
     only = getattr(ctx, "only", None)
     if only:
         for t in only.split(","):
-            if t in ("gaussian", "purefock", "fock", "passive", "fermi"):
+            if t in ("gaussian", "purefock", "fock", "passive", "fermi", "fgauss", "ffock"):
                 items = [it for it in items if it["kind"] == t]
+            elif t in ("samp", "bos"):
+                items = [it for it in items if it["fam"] == t or (t == "bos" and it["fam"] == "fermi")]
             elif t.startswith("d"):
                 items = [it for it in items if it["d"] == int(t[1:])]
             elif t.startswith("c"):
@@ -144,6 +165,7 @@ def run(ctx, builddir):
         "states with <= 2 photons, a superposition / mixture; fermionic: all 2^d number states), every instruction sequence up to the depth over "
         "the full alphabet (every gate kind on every ORDERED mode tuple); for each such program ALL d! relabellings are executed in lock-step; "
         "in every state up to the commutation depth every unordered pair of alphabet actions with disjoint supports is executed in both orders; "
+        "sampling path: per simulator and d every root x every permutation gate of the box x every relabelling x every ordered measured mode tuple x (shots, seed); "
         "a case = (program, permutation) or (state, pair) or (state, measured mode tuple, permutation); distinct = canonical hash of the identity "
         "track's state + configuration (every distinct state is the target of d! compared executions)"
     )
@@ -159,20 +181,32 @@ def run(ctx, builddir):
                    "d=2 and in the roots at d=3, fermionic d<=3; the thorough tier (measured 61 CPU-minutes) carries the deeper boxes and all cutoffs 1..5")
     ctx.assume("general-dyne measurements: Config.rng is replaced by a lattice generator; compared are the (mean, covariance) the sampler is called with and the "
                "conditional states of the lattice outcomes")
+    ctx.assume("sampling path (integer shots): only deterministic circuits (number state + permutation interferometer; reference n'[m] = n[p] for the matrix entry "
+               "T[m, p] = 1, cross-validated against passiveref.dilation_table and fermiref.u_interferometer at start-up) so that Result.samples is independent of the "
+               "seed stream; seed_sequence in {1 + VERIF_SEED, 77 + VERIF_SEED}, shots 3 (every ordered tuple) and 1 (every order of all modes); FockSimulator roots are "
+               "DensityMatrix(ket=n, bra=n); fermionic PureFockSimulator: the permutation gate is written as the equivalent d x d matrix on modes (0..d-1), "
+               "because that simulator refuses non-consecutive mode tuples")
+    _samp_selftest()
     core.pmap(ctx, "mc.checks.c16", "work", items, builddir)
     c = ctx.counters
     if not only:
-        for k in ("relabel_compared", "commute_pairs_compared", "outcome_maps_compared"):
+        for k in ("relabel_compared", "commute_pairs_compared", "outcome_maps_compared") + tuple("sample_lists_compared/" + k for k in SAMP_KINDS):
             if c.get(k, 0) < 10:
                 raise core.HarnessError("HARNESS-VACUOUS C16: counter %s = %d" % (k, c.get(k, 0)))
     boxes = {}
     for it in items:
+        if it["fam"] == "samp":
+            boxes.setdefault("sampling path (integer shots, deterministic circuits) %s" % it["kind"], set()).update(
+                "d=%d roots=%s gates=%d relabellings=all measured=every ordered tuple" % (d, _samp_roots(it["kind"], d, it["tier"]), len(_samp_gates(d))) for d in it["ds"])
+            continue
         k = "%s d=%d cutoff=%s hbar=%s depth=%d alphabet=%s meas<=%d comm<=%d" % (it["kind"], it["d"], it.get("cutoff"), it.get("hbar"), it["depth"], it["level"], it["meas"], it["comm"])
         boxes.setdefault(k, set()).add(it["root"] if isinstance(it["root"], str) else "".join(map(str, it["root"])))
     return {
         "states": max(1, len(ctx.distinct)),
         "transitions": c.get("transitions", 0),
-        "traces_validated_against_impl": c.get("relabel_compared", 0) + c.get("commute_pairs_compared", 0) + c.get("outcome_maps_compared", 0),
+        "traces_validated_against_impl": c.get("relabel_compared", 0) + c.get("commute_pairs_compared", 0) + c.get("outcome_maps_compared", 0) + c.get("sample_lists_compared", 0),
+        "sample_lists_compared": c.get("sample_lists_compared", 0),
+        "sample_lists_compared_per_simulator": {k.split("/", 1)[1]: v for k, v in sorted(c.items()) if k.startswith("sample_lists_compared/")},
         "max_depth": c.get("max_depth", 0),
         "relabelled_executions_compared": c.get("relabel_compared", 0),
         "commuting_pairs_compared": c.get("commute_pairs_compared", 0),
@@ -182,7 +216,7 @@ def run(ctx, builddir):
         "boxes": {k: sorted(v) for k, v in sorted(boxes.items())},
         "explanation": "state = distinct canonical state of the identity track (+ configuration), merged over workers by hash; transition = one alphabet "
         "action applied to the identity track (each is followed by d!-1 relabelled executions); traces_validated = relabelled executions compared + "
-        "pairs executed in both orders and compared + outcome maps compared",
+        "pairs executed in both orders and compared + outcome maps compared + sample lists (integer shots, deterministic circuits) compared with the reference",
     }
 
 
@@ -230,6 +264,8 @@ def _describe(case):
         s += " pair=%s,%s" % (_tname(case["pair"][0]), _tname(case["pair"][1]))
     if case.get("measure"):
         s += " measure=%s%s" % (case["measure"][0], tuple(case["measure"][1]))
+    if case.get("measured") is not None:
+        s += " gate=%s measured=%s shots=%s seed_sequence=%s" % (case.get("gate"), tuple(case["measured"]), case.get("shots"), case.get("seed_sequence"))
     if case.get("pi") is not None:
         s += " pi=%s" % (tuple(case["pi"]),)
     return s
@@ -827,6 +863,197 @@ def _f_commute(ctx, rep, sim, kind, d, st, children, acts, path):
 
 
 # ---------------------------------------------------------------------------------------
+# sampling path: deterministic circuits, integer shots, every ordered measured mode tuple, every relabelling
+
+
+def _samp_roots(kind, d, tier="thorough"):
+    if kind in ("fgauss", "ffock"):
+        return {2: [(1, 0)], 3: [(1, 0, 0)] + ([(0, 1, 1)] if tier != "quick" else []), 4: [(1, 0, 0, 0), (0, 1, 1, 1), (1, 1, 0, 0)]}[d]
+    # (every arrangement of the occupations is reached through the relabellings and the permutation gates)
+    return {2: [(0, 1), (2, 1)], 3: [(0, 1, 2)], 4: [(0, 1, 2, 3)]}[d]
+
+
+def _samp_gates(d):
+    """None (no gate) or [gate modes G, s] : Interferometer(P).on_modes(*G) with the permutation matrix P[s[b], b] = 1 (a particle entering through
+    G[b] leaves through G[s[b]])"""
+    if d == 2:
+        return [None, [[0, 1], [1, 0]], [[1, 0], [1, 0]]]
+    if d == 3:
+        return [None] + [[[0, 1, 2], list(s)] for s in ((1, 2, 0), (2, 0, 1), (1, 0, 2))] + [[[2, 0], [1, 0]], [[2, 0, 1], [1, 2, 0]]]
+    return [None, [[0, 1, 2, 3], [1, 2, 3, 0]], [[0, 1, 2, 3], [2, 0, 3, 1]], [[3, 0, 2], [1, 2, 0]], [[1, 3], [1, 0]], [[2, 1, 0, 3], [3, 2, 0, 1]]]
+
+
+def _samp_matrix(s):
+    import numpy as np
+
+    P = np.zeros((len(s), len(s)))
+    for b, a in enumerate(s):
+        P[a, b] = 1.0
+    return P
+
+
+def _samp_ref(occ, gate):
+    """the single possible outcome: occupation numbers after the permutation interferometer"""
+    final = list(occ)
+    if gate is not None:
+        G, s = gate
+        for b, a in enumerate(s):
+            final[G[a]] = occ[G[b]]
+    return tuple(int(x) for x in final)
+
+
+def _samp_selftest():
+    """the two-line reference against the independent references of the passive and the fermionic simulators"""
+    import numpy as np
+    from mc import core
+    from mc.refmodel import passiveref, fermiref
+
+    for d in (2, 3):
+        for gate in _samp_gates(d):
+            if gate is None:
+                continue
+            G, s = gate
+            T = np.eye(d)
+            T[np.ix_(G, G)] = _samp_matrix(s)
+            for occ in _samp_roots("passive", d):
+                tab = passiveref.dilation_table(occ, T)
+                best = max(tab, key=lambda k: tab[k])
+                if tuple(best) != _samp_ref(occ, gate) or abs(tab[best] - 1) > 1e-12:
+                    raise core.HarnessError("HARNESS-SELFTEST C16 sampling reference disagrees with passiveref for %r %r" % (occ, gate))
+            for occ in _samp_roots("ffock", d):
+                psi = fermiref.u_interferometer(d, tuple(G), _samp_matrix(s).astype(complex)) @ fermiref.basis_state(occ)
+                pm = fermiref.probabilities(psi)
+                best = max(pm, key=lambda k: pm[k])
+                if tuple(best) != _samp_ref(occ, gate) or abs(pm[best] - 1) > 1e-12:
+                    raise core.HarnessError("HARNESS-SELFTEST C16 sampling reference disagrees with fermiref for %r %r" % (occ, gate))
+
+
+def _samp_sim(kind, d, cutoff, seed_sequence):
+    import piquasso as pq
+    import piquasso.fermionic as pf
+
+    cls = {"passive": pq.PassiveSimulator, "purefock": pq.PureFockSimulator, "fock": pq.FockSimulator, "fgauss": pf.GaussianSimulator, "ffock": pf.PureFockSimulator}[kind]
+    return cls(d=d, config=pq.Config(cutoff=int(cutoff), seed_sequence=int(seed_sequence)))
+
+
+def _samp_program(kind, d, occ, gate, pi, M):
+    """the relabelled program as templates"""
+    from mc import c16_lib as R
+
+    occ2 = R.permute_tuple(list(occ), pi)
+    prep = ("DensityMatrix", (), {"ket": occ2, "bra": occ2}) if kind == "fock" else ("NumberState", (), {"occupation_numbers": occ2})
+    prog = [prep]
+    if gate is not None:
+        G, s = gate
+        if kind == "ffock":
+            # the fermionic PureFockSimulator refuses gates on non-consecutive / non-ascending mode tuples: the same operator written on all modes
+            import numpy as np
+
+            T = np.eye(d)
+            ix = [int(pi[m]) for m in G]
+            T[np.ix_(ix, ix)] = _samp_matrix(s)
+            prog.append(("Interferometer", tuple(range(d)), {"matrix": T.tolist()}))
+        else:
+            prog.append(("Interferometer", tuple(int(pi[m]) for m in G), {"matrix": _samp_matrix(s).tolist()}))
+    prog.append(("ParticleNumberMeasurement", tuple(int(pi[m]) for m in M), {}))
+    return prog
+
+
+def _samp_run(kind, d, cutoff, occ, gate, pi, M, shots, seed_sequence):
+    """-> ('ok', samples) | ('refused' | 'crash', exception type name, message)"""
+    from mc import core
+    from mc import lockstep as L
+    from mc import c08_lib as K
+
+    sim = _samp_sim(kind, d, cutoff, seed_sequence)
+    try:
+        res = K.execute(sim, None, _samp_program(kind, d, occ, gate, pi, M), 0, shots=shots)
+        return ("ok", [tuple(x for x in smp) for smp in res.samples])
+    except core.HarnessError:
+        raise
+    except Exception as e:
+        f = L.Failure(e)
+        return ("crash" if f.cls == "crash" else "refused", f.exc_type, f.message[:200])
+
+
+def _samp_case(ctx, rep, kind, d, cutoff, occ, gate, pi, M, shots, seed_sequence):
+    """one execution; returns 'ok' / 'refused' / 'crash' / 'violation'"""
+    from mc import lockstep as L
+
+    final = _samp_ref(occ, gate)
+    want = [tuple(final[m] for m in M)] * shots
+    got = _samp_run(kind, d, cutoff, occ, gate, pi, M, shots, seed_sequence)
+    M2 = tuple(int(pi[m]) for m in M)
+    extra = {"gate": gate, "pi": list(pi), "measured": list(M), "shots": shots, "seed_sequence": seed_sequence, "history": [], "action": None}
+    sig = {"sub": "relabel_samples", "measured": "all-modes" if len(M) == d else "subset", "measured_mode_order": L.mode_order_class(M2)}
+    if got[0] != "ok":
+        if got[0] == "crash":
+            rep.report(dict(sig, defect="raises", exc=got[1]), extra, "sampling ParticleNumberMeasurement on modes %s (shots=%d) raises %s: %s" % (M2, shots, got[1], got[2]))
+            return "violation"
+        return got[0]
+    samples = got[1]
+    ok = len(samples) == len(want) and all(len(a) == len(b) and all(int(x) == y and x == y for x, y in zip(a, b)) for a, b in zip(samples, want))
+    if ok:
+        return "ok"
+    same_multiset = len(samples) == len(want) and all(sorted(a) == sorted(b) for a, b in zip(samples, want))
+    rep.report(dict(sig, defect="outcome_order" if same_multiset else "outcome_values", observable="Result.samples"), extra,
+               "Result.samples of the deterministic circuit is %s, the only possible outcome on modes %s is %s (final occupation of the relabelled program: %s)" % (
+                   samples, M2, want[0], tuple(_perm_tuple(final, pi))))
+    return "violation"
+
+
+def _perm_tuple(x, pi):
+    from mc import c16_lib as R
+
+    return R.permute_tuple(list(x), pi)
+
+
+def _work_samp(ctx, it):
+    from mc import c08_lib as K
+    from mc import c16_lib as R
+
+    for d in it["ds"]:
+        for occ in _samp_roots(it["kind"], d, it["tier"]):
+            for gate in _samp_gates(d):
+                _work_samp1(ctx, it["kind"], d, (d + 1) if it["kind"] in ("fgauss", "ffock") else sum(occ) + 1, tuple(occ), gate)
+
+
+def _work_samp1(ctx, kind, d, cutoff, occ, gate):
+    from mc import c08_lib as K
+    from mc import c16_lib as R
+
+    base = {"fam": "samp", "kind": kind, "d": d, "cutoff": cutoff, "hbar": 2.0, "seed": ctx.seed, "root": list(occ), "level": "-"}
+    rep = _Rep(ctx, base)
+    ss = (1 + int(ctx.seed), 77 + int(ctx.seed))
+    P = R.perms(d)
+    # the unrelabelled program measured on all modes in ascending order: if the simulator does not sample it, the cell is unsupported
+    first = _samp_run(kind, d, cutoff, occ, gate, P[0], tuple(range(d)), 3, ss[0])
+    ctx.count("transitions")
+    if first[0] != "ok":
+        ctx.count("cells/" + ("unsupported" if first[0] == "refused" else "crash"))
+        ctx.count("cells/samp_%s/%s/%s" % (first[0], kind, first[1]))
+        return
+    ctx.counters["max_depth"] = max(ctx.counters.get("max_depth", 0), 1 if gate is not None else 0)
+    for pi in P:
+        for M in K.ordered_subsets(d, 1, d):
+            for shots, seq in ((3, ss[0]),) + (((1, ss[1]),) if len(M) == d else ()):
+                r = _samp_case(ctx, rep, kind, d, cutoff, occ, gate, pi, M, shots, seq)
+                ctx.count("transitions")
+                if r in ("ok", "violation"):
+                    ctx.count("sample_lists_compared")
+                    ctx.count("sample_lists_compared/" + kind)
+                    ctx.count("sample_lists_compared/%s/%s" % ("all-modes" if len(M) == d else "subset", kind))
+                else:
+                    ctx.count("asymmetric_refusal")
+                    ctx.count("asymmetric_refusal/samp/%s" % kind)
+            ctx.note_distinct(repr(("samp", kind, d, occ, gate, pi, M)))
+    if len(ctx.samples) < ctx.max_samples and gate is not None and len(gate[0]) == d and d == 3 and kind == "passive":
+        pi, M = P[4], (2, 0, 1)
+        ctx.sample({"relation": "relabel_samples", "simulator": SIM_CLASS[kind], "program": [list(t[:2]) + [K.tjson(t)[2]] for t in _samp_program(kind, d, occ, gate, pi, M)],
+                    "pi": list(pi), "shots": 3, "expected_samples": [list(tuple(_samp_ref(occ, gate)[m] for m in M))] * 3})
+
+
+# ---------------------------------------------------------------------------------------
 # work / replay
 
 
@@ -843,6 +1070,8 @@ def work(ctx, item):
 def _work(ctx, item):
     if item["fam"] == "bos":
         _work_bos(ctx, item)
+    elif item["fam"] == "samp":
+        _work_samp(ctx, item)
     else:
         _work_fermi(ctx, item)
 
@@ -862,6 +1091,9 @@ def _replay_case(ctx, case):
     rep = _Rep(ctx, base, replaying=True)
     idn = tuple(range(d))
     pi = tuple(case["pi"]) if case.get("pi") is not None else idn
+    if case["fam"] == "samp":
+        _samp_case(ctx, rep, kind, d, cutoff, tuple(case["root"]), case["gate"], pi, tuple(case["measured"]), case["shots"], case["seed_sequence"])
+        return
     if case["fam"] == "fermi":
         from mc.checks import c17
 
